@@ -676,6 +676,7 @@ def gen_cases(tier, rng):
         fmt = FORMATS[k % 5]
         atom = "NA"[(k // 5) % 2]
         cases.append((random_case(fmt, atom, rng), "random"))
+    cases += api2_cases(tier, rng)
     return cases
 
 
@@ -687,6 +688,9 @@ def strip_annot(out):
 
 
 def compare(line, impl, model):
+    if line.startswith("tendril2\t"):
+        # family api2 is oracle-only: the Lean driver has no such engine and must say so
+        return model == "bad-engine"
     # the harness-internal Vec<u8> oracle annotates the output; the Lean model is compared without it
     return strip_annot(impl) == model
 
@@ -695,6 +699,8 @@ WTF8_DEFECT = "WTF8::validate accepts ill-formed WTF-8 (stray continuation byte 
 
 
 def oracle(line, out):
+    if line.startswith("tendril2\t"):
+        return api2_oracle(line, out)
     return oracle_bytes(line, out)
 
 
@@ -708,6 +714,8 @@ KNOWN_MATCHERS = {
 def nontrivial(line, out):
     if out is None:
         return False
+    if line.startswith("tendril2\t"):
+        return "=" in out.split("@")[0]
     po = parse_out(out)
     if po is None:
         return False
@@ -724,6 +732,8 @@ def nontrivial(line, out):
 
 def neighbourhood(line):
     """shorter prefixes of a disagreeing history"""
+    if line.startswith("tendril2\t"):
+        return []
     fmt, atom, ops = split_line(line)
     return [mk(fmt, atom, ops[:k]) for k in range(1, len(ops))][-12:]
 
@@ -733,3 +743,607 @@ def extra_evidence(check):
             "families": "cover-<representation> × probes, cover-adjacent (push_tendril fast path), "
                         "cover-validate (edges of the well-formed UTF-8 ranges, surrogate joins), cover-pusht-grid (all receiver × "
                         "argument views (offset, length) of one shared 64-byte buffer, via subtendril and via pops), random"}
+
+
+# ============================================================================= family api2
+# engine `tendril2` (harness/src/engines/tendril2.rs): the rest of tendril's public API — conversions
+# between formats, comparison / hashing, std trait impls, io / fmt writers, read_to_tendril, Extend /
+# FromIterator, TendrilSink helpers.  One case = one pure function of its inputs; there is no Lean model
+# for these (compare() only demands that the Lean driver answers `bad-engine`), the judge is the Python
+# reference below: what an owned byte string / a Python str gives.
+
+API2_LENS = [0, 1, 7, 8, 9, 16, 17, 33, 100]
+SHAPES = "iosxp"
+SUPERS = {"ascii": ["utf8", "latin1"], "utf8": ["wtf8"]}
+SUBS = {"utf8": ["ascii"], "latin1": ["ascii"], "wtf8": ["utf8"]}
+API2_ANY = ("bytes", "reint", "eq", "extt", "send")
+API2_SLICE = ("cmp", "borrow", "debug", "from", "exts")
+API2_UTF8 = ("display", "tostring", "fromstr", "wstr", "format", "extc")
+API2_BYTES = ("iowrite", "read", "extb", "extu8", "sink")
+API2_OPS = API2_ANY + ("super", "sub", "eqstr") + API2_SLICE + API2_UTF8 + API2_BYTES
+DIGEST_OVER = 600
+MASK64 = (1 << 64) - 1
+
+
+def fnv64(b):
+    h = 0xcbf29ce484222325
+    for x in b:
+        h = ((h ^ x) * 0x100000001b3) & MASK64
+    return h
+
+
+def hexs(b):
+    """as the engine prints byte strings: long ones as length + FNV-1a digest"""
+    if len(b) > DIGEST_OVER:
+        return "#%d:%x" % (len(b), fnv64(b))
+    return hx(b)
+
+
+def opnd(shape, b):
+    """operand field; long periodic contents are written as *n*pattern"""
+    if len(b) > 64:
+        for plen in (1, 2, 3, 4, 5, 7):
+            pat = b[:plen]
+            if all(b[i] == pat[i % plen] for i in range(len(b))):
+                return "%s:*%d*%s" % (shape, len(b), hx(pat))
+    return "%s:%s" % (shape, hx(b))
+
+
+def parse_opnd(f):
+    """-> (shape, bytes) for a byte operand, (None, word) otherwise"""
+    if len(f) >= 2 and f[1] == ":" and f[0] in "iosxpr":
+        spec = f[2:]
+        if spec.startswith("*"):
+            n, pat = spec[1:].split("*", 1)
+            p = unhx(pat)
+            return f[0], bytes(p[i % len(p)] for i in range(int(n)))
+        return f[0], unhx(spec)
+    return None, f
+
+
+def kind_of(shape, n):
+    """representation the Debug impl must report for an operand of n bytes built in `shape`"""
+    if shape == "o":
+        return "o"
+    if shape == "s":
+        return "s"
+    if shape == "i":
+        return "i" if n <= 8 else "o"
+    return "i" if n <= 8 else "s"       # x, p: views of a longer buffer; short results are inline
+
+
+def fresh_kind(n):
+    """a tendril built by copying n bytes / by pushing onto an empty one"""
+    return "i" if n <= 8 else "o"
+
+
+def sound_as(fmt, b):
+    """may the bytes be looked at as `fmt` without validation (the engine's own, conservative rule)"""
+    if fmt in ("bytes", "latin1"):
+        return True
+    if fmt == "ascii":
+        return all(x < 0x80 for x in b)
+    return valid("utf8", b)
+
+
+PRINTABLE_NON_ASCII = set("\u00e9\u20ac\U0001f600\u00df\u8a9e\u00e1")   # é € 😀 ß 語 á: printable in every Unicode version
+
+
+def rust_debug_str(s):
+    """<str as Debug>::fmt for the characters whose class is certain; None if some character's is not"""
+    out = ['"']
+    for ch in s:
+        c = ord(ch)
+        if ch == '"':
+            out.append('\\"')
+        elif ch == "\\":
+            out.append("\\\\")
+        elif ch == "\n":
+            out.append("\\n")
+        elif ch == "\r":
+            out.append("\\r")
+        elif ch == "\t":
+            out.append("\\t")
+        elif c == 0:
+            out.append("\\0")
+        elif c < 0x20 or c == 0x7f or 0x80 <= c <= 0x9f:
+            out.append("\\u{%x}" % c)
+        elif c < 0x7f or ch in PRINTABLE_NON_ASCII:
+            out.append(ch)
+        else:
+            return None
+    out.append('"')
+    return "".join(out)
+
+
+def sim_reader(data, chunks, intr, errat, buflens):
+    """the engine's chunked reader: `buflens(k)` = size of the buffer offered at the k-th successful read.
+    -> (pieces delivered, failed?)"""
+    pos, k, call, pieces = 0, 0, 0, []
+    while True:
+        call += 1
+        if intr and call % intr == 0:
+            continue
+        if errat is not None and pos >= errat:
+            return pieces, True
+        n = min(chunks[k % len(chunks)], buflens(len(pieces)), len(data) - pos)
+        k += 1
+        if errat is not None:
+            n = min(n, errat - pos)
+        if n == 0:
+            return pieces, False
+        pieces.append(data[pos:pos + n])
+        pos += n
+
+
+def show_pieces(ps):
+    return "%s;%s" % (",".join(str(len(p)) for p in ps) if ps else "-", hexs(b"".join(ps)))
+
+
+def api2_expected(line):
+    """the value part the engine must print, from the inputs alone"""
+    f = line.split("\t")
+    if len(f) < 5 or f[0] != "tendril2":
+        return "bad-case"
+    op, fmt, atom = f[1], f[2], f[3]
+    args = [parse_opnd(x) for x in f[4:]]
+    if atom not in "NA" or fmt not in FORMATS:
+        return "bad-case"
+    ok_fmt = (op in API2_ANY or (op == "super" and len(args) == 2 and args[1][1] in SUPERS.get(fmt, []))
+              or (op == "sub" and len(args) == 2 and args[1][1] in SUBS.get(fmt, []))
+              or (op == "eqstr" and fmt in ("ascii", "utf8")) or (op in API2_SLICE and fmt in SLICEFMT)
+              or (op in API2_UTF8 and fmt == "utf8") or (op in API2_BYTES and fmt == "bytes"))
+    if not ok_fmt:
+        return "bad-op"
+
+    def T(k):
+        sh, b = args[k]
+        if sh is None or sh == "r":
+            raise KeyError("bad-case")
+        if not valid(fmt, b):
+            raise KeyError("invalid-input")
+        return sh, b
+
+    def kb(k, b):
+        return "%s:%s" % (k, hexs(b))
+
+    def raw(k, as_fmt=None):
+        sh, b = args[k]
+        if sh != "r":
+            raise KeyError("bad-case")
+        if as_fmt and not valid(as_fmt, b):
+            raise KeyError("invalid-input")
+        return b
+
+    def num(k):
+        sh, w = args[k]
+        if sh is not None:
+            raise KeyError("bad-case")
+        return int(w)
+
+    try:
+        if op == "bytes":
+            sh, b = T(0)
+            k = kind_of(sh, len(b))
+            out = "as=%s into=%s k=%s%s" % (hexs(b), hexs(b), k, k)
+        elif op == "reint":
+            sh, b = T(0)
+            tgt = args[1][1]
+            k = kind_of(sh, len(b))
+            v = valid(tgt, b)
+            snd = sound_as(tgt, b)
+            out = "view=%s into=%s raw=%s rawinto=%s k=%s" % (
+                "ok:" + hexs(b) if v else "err", ("ok:" if v else "err:") + kb(k, b),
+                kb(k, b) if snd else "n/a", kb(k, b) if snd else "n/a", k)
+        elif op == "eq":
+            (_, a), (_, b) = T(0), T(1)
+            e = int(a == b)
+            out = "eq=%d ne=%d hasheq=%d hslice=1" % (e, 1 - e, e)
+        elif op == "extt":
+            sh, acc = T(0)
+            for k in range(1, len(args)):
+                acc = concat(fmt, acc, T(k)[1])
+            out = "ext=%s from=%s args=ok" % (hexs(acc), hexs(acc))
+        elif op == "send":
+            sh, b = T(0)
+            out = "from=%s into=%s c=%s m=%s n=%s" % (kb("o", b), kb("o", b), kb("s", b),
+                                                      kb(fresh_kind(len(b) + 1), b + b"!"), kb("s", b))
+        elif op == "super":
+            sh, b = T(0)
+            k = kind_of(sh, len(b))
+            out = "view=%s into=%s" % (kb(k, b), kb(k, b))
+        elif op == "sub":
+            sh, b = T(0)
+            k = kind_of(sh, len(b))
+            v = valid(args[1][1], b)
+            out = "view=%s into=%s" % ("ok:" + kb(k, b) if v else "err", ("ok:" if v else "err:") + kb(k, b))
+        elif op == "eqstr":
+            sh, b = T(0)
+            e = int(b == raw(1, "utf8"))
+            out = "eq=%d ne=%d" % (e, 1 - e)
+        elif op == "cmp":
+            (_, a), (_, b) = T(0), T(1)
+            c = (a > b) - (a < b)           # byte-wise lexicographic (= str order for UTF-8)
+            nm = {-1: "lt", 0: "eq", 1: "gt"}
+            out = "cmp=%s pcmp=%s lt=%d le=%d gt=%d ge=%d rev=%s" % (nm[c], nm[c], c < 0, c <= 0, c > 0, c >= 0, nm[-c])
+        elif op == "borrow":
+            sh, b = T(0)
+            key = raw(1)
+            # map = {tendril: 7, empty tendril: 1} looked up by the key bytes
+            got = (1 if b == b"" else 7) if key == b else (1 if key == b"" else None)
+            out = "borrow=%s asref=%s deref=%s map=%s" % (hexs(b), hexs(b), hexs(b), "-" if got is None else got)
+        elif op == "debug":
+            sh, b = T(0)
+            k = {"i": "inline", "o": "owned", "s": "shared"}[kind_of(sh, len(b))]
+            if fmt == "bytes":
+                body = "[%s]" % ", ".join(str(x) for x in b)
+            else:
+                body = rust_debug_str(b.decode("utf-8"))
+                if body is None:
+                    return ("debug-prefix", ("Tendril<UTF8>(%s: \"" % k).encode(), b'")')
+            out = "dbg=%s" % hexs(("Tendril<%s>(%s: %s)" % ("Bytes" if fmt == "bytes" else "UTF8", k, body)).encode())
+        elif op == "from":
+            b = raw(0, fmt)
+            x = kb(fresh_kind(len(b)), b)
+            out = "from=%s slice=%s tot=%s default=i:-" % (x, x, x)
+        elif op == "exts":
+            sh, b = T(0)
+            ps = b"".join(raw(k, fmt) for k in range(1, len(args)))
+            out = "ext=%s from=%s" % (hexs(b + ps), hexs(ps))
+        elif op == "display":
+            sh, b = T(0)
+            s = b.decode("utf-8")
+            out = "disp=%s" % hexs(("%s|%s|%s|%s|" % (s, s.rjust(12), s.ljust(5), s[:3])).encode("utf-8"))
+        elif op == "tostring":
+            sh, b = T(0)
+            out = "ref=%s tos=%s own=%s k=%s" % (hexs(b), hexs(b), hexs(b), kind_of(sh, len(b)))
+        elif op == "fromstr":
+            b = raw(0, "utf8")
+            x = kb(fresh_kind(len(b)), b)
+            out = "string=%s parse=%s" % (x, x)
+        elif op == "wstr":
+            sh, b = T(0)
+            s, n = raw(1, "utf8"), num(2)
+            out = "ws=1 mid=%s wf=1 wc=1 b=%s" % (hexs(b + s), hexs(b + s + s + ("-%03d" % n).encode() + b"!"))
+        elif op == "format":
+            s, n = raw(0, "utf8").decode("utf-8"), num(1)
+            a = ("%s:%d:%x" % (s, n, n)).encode("utf-8")
+            m = ("[%s]%d" % (s.rjust(6), n)).encode("utf-8")
+            out = "fmt=%s mac=%s" % (kb(fresh_kind(len(a)), a), kb(fresh_kind(len(m)), m))
+        elif op == "extc":
+            sh, b = T(0)
+            s = raw(1, "utf8")
+            fc = kb("i", s.decode("utf-8")[0].encode("utf-8")) if s else "none"
+            out = "ext=%s from=%s fc=%s" % (hexs(b + s), hexs(s), fc)
+        elif op == "iowrite":
+            sh, b = T(0)
+            a, c = raw(1), raw(2)
+            out = "n=%d mid=%s all=1 flush=1 wf=1 b=%s" % (len(a), hexs(b + a), hexs(b + a + c + str(len(a)).encode()))
+        elif op in ("read", "sink"):
+            sh, b = T(0)
+            data = raw(1)
+            chunks = [int(x) for x in args[2][1].split(",")]
+            intr, errat = num(3), num(4)
+            if any(c <= 0 for c in chunks) or intr == 1 or intr < 0:
+                return "bad-case"
+            errat = None if errat < 0 else errat
+            if op == "read":
+                # whatever the buffer sizes: everything delivered before the end / the error is appended
+                fail = errat is not None and errat <= len(data)
+                got = data[:errat] if fail else data
+                out = "r=%s b=%s s=ok:%d b2=%s" % ("err" if fail else "ok:%d" % len(got), hexs(b + got), len(data),
+                                                   hexs(b + data))
+            else:
+                cs = max(5, len(data) // 6 + 1)
+                it = [data[i:i + cs] for i in range(0, len(data), cs)]
+                ps, fail = sim_reader(data, chunks, intr, errat, lambda k: 4096)
+                out = "one=1/%s iter=%d/%s read=%s/%s fin=%d" % (show_pieces([b]), len(it), show_pieces(it),
+                                                                "err" if fail else len(ps), show_pieces(ps), 2 + (not fail))
+        elif op == "extb":
+            sh, b = T(0)
+            n, v = num(1), num(2)
+            if not (0 <= n <= 1 << 20 and 0 <= v < 256):
+                return "bad-case"
+            out = "b=%s" % hexs(b + bytes([v]) * n)
+        elif op == "extu8":
+            sh, b = T(0)
+            a = raw(1)
+            out = "ext=%s extref=%s from=%s fromref=%s" % (hexs(b + a), hexs(b + a), hexs(a), hexs(a))
+        else:
+            return "bad-op"
+    except KeyError as e:
+        return e.args[0]
+    except (ValueError, IndexError, TypeError, UnicodeDecodeError):
+        return "bad-case"
+    return out + " keep=ok"
+
+
+def api2_oracle(line, out):
+    if out is None or out.startswith("PANIC") or out.startswith("ABORT") or out.startswith("HANG"):
+        return "implementation crashed: %s" % out
+    if "@ledger=" not in out:
+        return "malformed output: %s" % out[:200]
+    value = out.rsplit("@ledger=", 1)[0]
+    want = api2_expected(line)
+    if isinstance(want, tuple):
+        # Debug of a str with characters whose escape class this reference does not know: frame only
+        _, pre, post = want
+        if not value.startswith("dbg=") or not value.endswith(" keep=ok"):
+            return "api2 %s: got %s" % (line.split("\t")[1], value[:200])
+        got = unhx(value[4:-8]) if not value[4:].startswith("#") else None
+        if got is not None and not (got.startswith(pre) and got.endswith(post)):
+            return "api2 debug: %r does not have the form %r…%r" % (got, pre, post)
+        return None
+    if value != want:
+        return "api2 %s: the real code gives [%s], an owned byte string / Python str gives [%s]" % (
+            line.split("\t")[1], value[:300], want[:300])
+    return None
+
+
+def api2_ledger_oracle(line, out):
+    """C12's half: the allocation ledger over the whole case"""
+    if out is None or out.startswith("PANIC") or out.startswith("ABORT") or out.startswith("HANG"):
+        return "implementation crashed: %s" % out
+    if "@ledger=" not in out:
+        return "malformed output: %s" % out[:200]
+    value, led = out.rsplit("@ledger=", 1)
+    if value == "panic":
+        return "api2 %s: panicked" % line.split("\t")[1]
+    if led != "ok":
+        return "api2 %s: allocation ledger not balanced at the end of the case: %s" % (line.split("\t")[1], led)
+    return None
+
+
+# ----------------------------------------------------------------------------- api2 case generation
+
+def api2_contents(fmt):
+    cs = [content(fmt, n) for n in API2_LENS]
+    cs += {
+        "bytes": [b"\x00", b"\xff\x00\x80", bytes(range(250, 256)) + bytes(range(6)), b"abc", b"\xc3\xa9t\xc3\xa9"],
+        "ascii": [b"\x00\x7f", b"\x7f" * 9, b"abc"],
+        "latin1": [b"\x80\xff\xa0", b"\xff" * 9, b"abc", b"\xc3\xa9"],
+        "utf8": ["\x7f\x80\u07ff\u0800\uffff\U00010000\U0010ffff".encode(), "\ud7ff\ue000".encode("utf-8", "surrogatepass"),
+                 b"\x00", b"abc", "\U0001f600\U0001f600\U0001f600".encode(), "\u00e9".encode()],
+        "wtf8": [b"\xed\xa0\x80", b"\xed\xb0\x80", b"\xed\xb0\x80\xed\xa0\x80", b"\xed\xa0\x80a\xed\xb0\x80",
+                 "\x7f\x80\u07ff\u0800\uffff\U00010000\U0010ffff".encode(), b"abc", b"abcdefg\xed\xa0\xbd",
+                 b"\xed\xb8\x80abcdefgh"],
+    }[fmt]
+    return cs
+
+
+def api2_variants(fmt, b):
+    """contents to compare b with: longer / shorter / same length, smaller / greater, empty"""
+    cand = [b, b + content(fmt, 1, 5), b"", b"z", b"A", b"\x00", b + b"\x00"]
+    for k in range(len(b) - 1, 0, -1):
+        if valid(fmt, b[:k]):
+            cand.append(b[:k])
+            break
+    if b:
+        cand.append(b[:-1] + bytes([b[-1] ^ 1]))
+        cand.append(bytes([b[0] ^ 1]) + b[1:])
+        cand.append(bytes([b[0] ^ 0x20]) + b[1:])
+        cand.append(b[1:] + b[:1])
+    out = []
+    for c in cand:
+        if valid(fmt, c) and c not in out:
+            out.append(c)
+    return out
+
+
+API2_INVALID = [unhx(s) for s in EDGE_SEQS]
+
+
+def api2_cases(tier, rng):
+    thorough = tier == "thorough"
+    cases = []
+
+    def add(op, fmt, atom, *args):
+        cases.append(("tendril2\t%s\t%s\t%s\t%s" % (op, fmt, atom, "\t".join(args)), "api2-" + op))
+
+    for fmt in FORMATS:
+        conts = api2_contents(fmt)
+        for ci, b in enumerate(conts):
+            for si, sh in enumerate(SHAPES):
+                # quick: the atomicity alternates over (content, shape) instead of the full product
+                for atom in ("NA" if thorough else "NA"[(ci + si) % 2]):
+                    t1 = opnd(sh, b)
+                    add("bytes", fmt, atom, t1)
+                    add("send", fmt, atom, t1)
+                    for tgt in FORMATS:
+                        add("reint", fmt, atom, t1, tgt)
+                    for tgt in SUPERS.get(fmt, []):
+                        add("super", fmt, atom, t1, tgt)
+                    for tgt in SUBS.get(fmt, []):
+                        add("sub", fmt, atom, t1, tgt)
+                    vs = api2_variants(fmt, b)
+                    for vi, v in enumerate(vs):
+                        sh2 = SHAPES[(si + 1 + vi) % 5]
+                        add("eq", fmt, atom, t1, opnd(sh2, v))
+                        if fmt in SLICEFMT:
+                            add("cmp", fmt, atom, t1, opnd(sh2, v))
+                            if vi < 4:
+                                add("borrow", fmt, atom, t1, opnd("r", v))
+                        if fmt in ("ascii", "utf8") and valid("utf8", v):
+                            add("eqstr", fmt, atom, t1, opnd("r", v))
+                    if fmt == "ascii":
+                        add("eqstr", fmt, atom, t1, opnd("r", "é".encode()))
+                    # Extend<&Tendril> / FromIterator<&Tendril>
+                    c1, c9, c17 = content(fmt, 1, 3), content(fmt, 9, 3), content(fmt, 17, 3)
+                    add("extt", fmt, atom, t1)
+                    add("extt", fmt, atom, t1, opnd("i", c1))
+                    add("extt", fmt, atom, t1, opnd("s", c9), opnd("x", c17), opnd("i", b""), opnd("o", c1))
+                    add("extt", fmt, atom, t1, opnd(SHAPES[(si + 2) % 5], b))
+                    if fmt == "wtf8":
+                        for other in (b"\xed\xb0\x80", b"\xed\xb8\x80abcdefgh", b"\xed\xa0\x80"):
+                            for sh2 in "isx":
+                                add("extt", fmt, atom, t1, opnd(sh2, other))
+                                add("extt", fmt, atom, t1, opnd("i", b""), opnd(sh2, other), opnd(sh2, other))
+                    if fmt in SLICEFMT:
+                        add("debug", fmt, atom, t1)
+                        p1, p8, p9 = content(fmt, 1, 3), content(fmt, 8, 3), content(fmt, 9, 3)
+                        for ps in ([], [p1], [p1, b"", p8], [p9, p8, p1], [b""]):
+                            add("exts", fmt, atom, t1, *[opnd("r", p) for p in ps])
+                    if fmt == "utf8":
+                        add("display", fmt, atom, t1)
+                        add("tostring", fmt, atom, t1)
+                        for n in (0, 1, 8, 9):
+                            add("wstr", fmt, atom, t1, opnd("r", content("utf8", n, 2)), str((7, 0, 1234, 56)[n % 4]))
+                        for s in (b"", b"a", "é€".encode(), "😀😀😀".encode(), content("utf8", 9, 1), content("utf8", 17, 2),
+                                  b"abcdefgh" * 5):
+                            add("extc", fmt, atom, t1, opnd("r", s))
+                    if fmt == "bytes":
+                        for a in (0, 1, 8, 9, 17):
+                            add("iowrite", fmt, atom, t1, opnd("r", content("bytes", a, 1)),
+                                opnd("r", content("bytes", (a * 5 + 3) % 19, 2)))
+                            add("extu8", fmt, atom, t1, opnd("r", content("bytes", a, 4)))
+                        for n in sorted(set([0, 1, 7, 8, 9, 100, max(0, 8 - len(b)), max(0, 9 - len(b))])):
+                            add("extb", fmt, atom, t1, str(n), str((0, 0x61, 0xff)[n % 3]))
+        # operand-free constructors
+        if fmt in SLICEFMT:
+            for atom in "NA":
+                for b in conts:
+                    add("from", fmt, atom, opnd("r", b))
+                    if fmt == "utf8":
+                        add("fromstr", fmt, atom, opnd("r", b))
+    # debug escapes
+    for atom in "NA":
+        for sh in SHAPES:
+            for s in (b"a\"b\\c\n\t\r\x00'", b"\x01\x7f", "\u0080\u009f".encode(), "á".encode(), b"'"):
+                add("debug", "utf8", atom, opnd(sh, s))
+        for s in (b"", b"x", "é".encode(), b"1234567", b"12345678", b"0123456789abcdef"):
+            for n in (0, 5, 255, 123456):
+                add("format", "utf8", atom, opnd("r", s), str(n))
+    # validation: ill-formed bytes looked at as the stricter formats, from every less strict source
+    pre6 = b"abcdef"
+    for src in ("bytes", "latin1", "wtf8", "utf8", "ascii"):
+        for bad in API2_INVALID:
+            for ci, ctx in enumerate((bad, b"a" + bad, bad + b"b", pre6 + bad + b"zzz")):
+                if not valid(src, ctx):
+                    continue
+                for si, sh in enumerate(SHAPES if thorough else SHAPES[ci % 5] + SHAPES[(ci + 2) % 5]):
+                    atom = "NA"[(ci + si) % 2]
+                    for tgt in FORMATS:
+                        if tgt != src:
+                            add("reint", src, atom, opnd(sh, ctx), tgt)
+                    for tgt in SUBS.get(src, []):
+                        add("sub", src, atom, opnd(sh, ctx), tgt)
+    # read_to_tendril / TendrilSink::read_from: chunked readers with interruptions and failures
+    pat = b"abc"
+    stride = 0
+    for atom in "NA":
+        for L0, sh in ((0, "i"), (3, "i"), (5, "o"), (9, "s"), (20, "x"), (40, "p")):
+            init = content("bytes", L0, 2)
+            for n in (0, 1, 15, 16, 17, 31, 32, 33, 95, 96, 97, 223, 224, 225, 1000):
+                data = bytes(pat[i % 3] for i in range(n))
+                for chunks in ("1", "7,1", "16", "32", "1000"):
+                    if chunks == "1" and n > 300:
+                        continue
+                    for intr in (0, 2, 3):
+                        for errat in (-1, 0, 5, n, n + 1):
+                            stride += 1
+                            if not thorough and stride % 4:
+                                continue
+                            add("read", "bytes", atom, opnd(sh, init), opnd("r", data), chunks, str(intr), str(errat))
+            for n, chunks in ((70000, "100000"), (70000, "4096,1"), (200000, "65536"), (200000, "100000,3")):
+                data = bytes(pat[i % 3] for i in range(n))
+                for errat in (-1, 66000):
+                    add("read", "bytes", atom, opnd(sh, init), opnd("r", data), chunks, "0", str(errat))
+            for n in (0, 1, 5, 100, 4095, 4096, 4097, 10000):
+                data = bytes(pat[i % 3] for i in range(n))
+                for chunks in ("5000", "4096", "7,5000", "1"):
+                    if chunks == "1" and n > 100:
+                        continue
+                    for intr in (0, 2):
+                        for errat in (-1, 0, 50, n):
+                            stride += 1
+                            if not thorough and stride % 2:
+                                continue
+                            add("sink", "bytes", atom, opnd(sh, init), opnd("r", data), chunks, str(intr), str(errat))
+            add("extb", "bytes", atom, opnd(sh, init), "70000", "97")
+    # seeded random cases
+    n = 1500 if not thorough else 60000
+    for _ in range(n):
+        cases.append((api2_random(rng), "api2-random"))
+    return cases
+
+
+def api2_rand_content(fmt, rng):
+    n = rng.choice(API2_LENS) if rng.random() < 0.6 else rng.randint(0, 60)
+    if fmt in ("bytes", "latin1") and rng.random() < 0.4:
+        return bytes(rng.getrandbits(8) for _ in range(n))
+    if fmt == "bytes" and rng.random() < 0.3:
+        return content(rng.choice(["utf8", "wtf8", "ascii"]), n, rng.randint(0, 7))
+    if fmt == "wtf8" and rng.random() < 0.3:
+        b = content("wtf8", n, rng.randint(0, 7)) + rng.choice([b"\xed\xa0\x80", b"\xed\xaf\xbf", b""])
+        return b
+    return content(fmt, n, rng.randint(0, 7))
+
+
+def api2_random(rng):
+    fmt = rng.choice(FORMATS)
+    atom = rng.choice("NA")
+    ops = list(API2_ANY) + ["super", "sub"]
+    if fmt in SLICEFMT:
+        ops += list(API2_SLICE)
+    if fmt in ("ascii", "utf8"):
+        ops.append("eqstr")
+    if fmt == "utf8":
+        ops += list(API2_UTF8)
+    if fmt == "bytes":
+        ops += list(API2_BYTES)
+    op = rng.choice(ops)
+
+    def t():
+        return opnd(rng.choice(SHAPES), api2_rand_content(fmt, rng))
+
+    def r(f=None):
+        return opnd("r", api2_rand_content(f or fmt, rng))
+
+    if op in ("bytes", "send", "debug", "display", "tostring"):
+        a = [t()]
+    elif op == "reint":
+        a = [t(), rng.choice(FORMATS)]
+    elif op in ("super", "sub"):
+        tg = (SUPERS if op == "super" else SUBS).get(fmt)
+        if not tg:
+            op, a = "bytes", [t()]
+        else:
+            a = [t(), rng.choice(tg)]
+    elif op in ("eq", "cmp"):
+        b = api2_rand_content(fmt, rng)
+        v = rng.choice(api2_variants(fmt, b))
+        a = [opnd(rng.choice(SHAPES), b), opnd(rng.choice(SHAPES), v)]
+    elif op == "eqstr":
+        b = api2_rand_content(fmt, rng)
+        a = [opnd(rng.choice(SHAPES), b), opnd("r", rng.choice([v for v in api2_variants(fmt, b) if valid("utf8", v)]))]
+    elif op == "borrow":
+        b = api2_rand_content(fmt, rng)
+        a = [opnd(rng.choice(SHAPES), b), opnd("r", rng.choice(api2_variants(fmt, b)))]
+    elif op == "extt":
+        a = [t() for _ in range(rng.randint(1, 5))]
+    elif op == "exts":
+        a = [t()] + [r() for _ in range(rng.randint(0, 4))]
+    elif op in ("from", "fromstr"):
+        a = [r()]
+    elif op == "wstr":
+        a = [t(), r(), str(rng.choice([0, 9, 10, 999, 1000, 4294967296]))]
+    elif op == "format":
+        a = [r(), str(rng.choice([0, 9, 255, 65536, 4294967296]))]
+    elif op in ("extc", "extu8"):
+        a = [t(), r()]
+    elif op == "iowrite":
+        a = [t(), r(), r()]
+    elif op == "extb":
+        a = [t(), str(rng.choice([0, 1, 7, 8, 9, 16, 17, 100, 601, 5000])), str(rng.getrandbits(8))]
+    else:  # read, sink
+        n = rng.choice([0, 1, 31, 32, 33, 100, 500, 4096, 5000, 9000])
+        data = bytes(rng.getrandbits(8) for _ in range(n)) if n <= 500 else bytes(b"xyz"[i % 3] for i in range(n))
+        if op == "sink":
+            chunks = ",".join(str(rng.choice([64, 1000, 4096, 5000])) for _ in range(rng.randint(1, 3)))
+        else:
+            chunks = ",".join(str(rng.choice([1, 2, 7, 16, 31, 32, 33, 64, 1000, 5000])) for _ in range(rng.randint(1, 3)))
+            if "1" in chunks.split(",") and n > 500:
+                chunks = "64"
+        a = [t(), opnd("r", data), chunks, str(rng.choice([0, 0, 2, 3, 5])),
+             str(rng.choice([-1, -1, 0, n // 2, n, n + 1]))]
+    return "tendril2\t%s\t%s\t%s\t%s" % (op, fmt, atom, "\t".join(a))
